@@ -55,7 +55,19 @@ uint64_t ceilto64b(uint64_t size) { return (size + UINT64_C(63)) & (UINT64_C(-64
 uint64_t ceilto32b(uint64_t size) { return (size + UINT64_C(31)) & (UINT64_C(-32)); }
 
 #ifdef SPQLIOS_VERIF
-static int spqlios_verif_allow_accelerated = 1;
-EXPORT int spqlios_verif_cpu_allows(const char* feature) { return spqlios_verif_allow_accelerated; }
-EXPORT void spqlios_verif_set_cpu_mask(int allow_accelerated) { spqlios_verif_allow_accelerated = allow_accelerated; }
+#include <string.h>
+static int spqlios_verif_allow_avx2 = 1;
+static int spqlios_verif_allow_fma = 1;
+EXPORT int spqlios_verif_cpu_allows(const char* feature) {
+  if (!strcmp(feature, "avx2")) return spqlios_verif_allow_avx2;
+  if (!strcmp(feature, "fma")) return spqlios_verif_allow_fma;
+  return spqlios_verif_allow_avx2 && spqlios_verif_allow_fma;
+}
+EXPORT void spqlios_verif_set_cpu_mask(int allow_accelerated) {
+  spqlios_verif_allow_avx2 = spqlios_verif_allow_fma = allow_accelerated;
+}
+EXPORT void spqlios_verif_set_cpu_features(int allow_avx2, int allow_fma) {
+  spqlios_verif_allow_avx2 = allow_avx2;
+  spqlios_verif_allow_fma = allow_fma;
+}
 #endif
